@@ -167,6 +167,18 @@ def one_case(mon, rng, c):
         amt = (Decimal(rng.randint(1, 10**9)) / Decimal(10**6) * scale).quantize(Decimal(10) ** -min(18, t.decimal))
         if amt == 0:
             amt = Decimal(1) / Decimal(10**t.decimal)
+        if led.bor and rng.random() < 0.25:
+            # the max-repay helper reports the debt (amount borrowed x borrow-index ratio), and nothing else
+            dn = rng.choice(sorted(led.bor))
+            r_h = Dr.call_op(m.get_max_repay_amount, tok[dn])
+            mon.ev()
+            mon.hit("max-repay-helper")
+            want_h = led.bor[dn] * idx(dn, "b")
+            if not r_h.ok:
+                mon.violation("aave", "get_max_repay_amount", "raises", r_h.site or type(r_h.exc).__name__, f"{dn}: {r_h.exc!r}")
+            elif abs(F(r_h.ret) - want_h) > TOL:
+                mon.violation("aave", "get_max_repay_amount", "amount-vs-ledger", "helper",
+                              f"{dn}: helper says {r_h.ret}, the debt is {float(want_h)!r} (index kind {index_kind})", {"case": c, "bar": bar})
         choices = ["supply"] * 3
         if led.sup.get(name):
             choices += ["withdraw", "withdraw_all", "withdraw_part3", "withdraw_zero"]
